@@ -195,6 +195,13 @@ def judge (_id : String) (lines : Array String) : Verdict := Id.run do
   if lines.size != 1 then return .badop s!"expected one op line, got {lines.size}"
   let l := lines[0]!
   let (opT, obs) := splitObs (tokens l)
+  -- thorough tier: the summary of the cases that were repeated under the Go race detector
+  if opT == ["race"] then
+    match obs with
+    | [k, races] =>
+      if races == "0" then return .ok (k != "0") ["race-detector-run"]
+      else return .specfail "no-data-race" s!"the Go race detector reported {races} data race(s) in {k} real-task cases (stderr of the check)"
+    | _ => return .mismatch s!"the race-detector run could not be made: {obs}"
   let [_, chainT, stopT, clsT, nT] := opT | return .badop l
   let some toks := (chainT.splitOn ",").mapM parseNode | return .badop l
   let some stop := parseStop stopT | return .badop l
